@@ -123,7 +123,7 @@ package ketoapi
 
 // ---- C18: the human-readable form namespace:object#relation@subject.
 // Dom: the fields avoid the separators where they are significant.
-//@ spec noparens(s string) bool = len(s) == 0 || (s[0] != 40 && s[0] != 41 && s[len(s) - 1] != 40 && s[len(s) - 1] != 41)
+//@ spec noparens(s string) bool = firstb(s) != 40 && firstb(s) != 41 && lastb(s) != 40 && lastb(s) != 41
 //@ spec domstr(x *RelationTuple) bool = onesubject(x) && nosep(x.Namespace, 58) && nosep(x.Object, 35) && nosep(x.Relation, 64)
 //@ spec domid(x *RelationTuple) bool = x.SubjectID != nil ==> nosep(*x.SubjectID, 58) && noparens(*x.SubjectID)
 
@@ -132,3 +132,17 @@ package ketoapi
 //@   opt inline-all
 //@   requires domstr(x) && domid(x) && x.SubjectSet == nil
 //@   ensures[C18] string-roundtrip-subject-id: result1 == nil && result0 != nil && result0.Namespace == x.Namespace && result0.Object == x.Object && result0.Relation == x.Relation && sameid(result0.SubjectID, x.SubjectID) && result0.SubjectSet == nil
+
+//@ spec firstnotparen(s string) bool = firstb(s) != 40 && firstb(s) != 41
+//@ spec lastnotparen(s string) bool = lastb(s) != 40 && lastb(s) != 41
+//@ spec domset(s *SubjectSet) bool = s != nil && nosep(s.Namespace, 58) && nosep(s.Namespace, 35) && nosep(s.Object, 35) && firstnotparen(s.Namespace) && (s.Relation != "" ==> lastnotparen(s.Relation)) && (s.Relation == "" ==> lastnotparen(s.Object))
+
+//@ func verifRoundTripStringSet
+//@   props C18
+//@   opt inline-all
+//@   requires domstr(x) && x.SubjectID == nil && domset(x.SubjectSet)
+//@   ensures[C18] set-a: result1 == nil ==> result0 != nil
+//@   ensures[C18] set-b: result1 == nil ==> result0.Namespace == x.Namespace && result0.Object == x.Object && result0.Relation == x.Relation
+//@   ensures[C18] set-c: result1 == nil ==> result0.SubjectID == nil && result0.SubjectSet != nil
+//@   ensures[C18] set-d: result1 == nil && result0.SubjectSet != nil ==> result0.SubjectSet.Namespace == x.SubjectSet.Namespace
+//@   ensures[C18] set-e: result1 == nil && result0.SubjectSet != nil ==> result0.SubjectSet.Object == x.SubjectSet.Object && result0.SubjectSet.Relation == x.SubjectSet.Relation
